@@ -162,18 +162,16 @@ class SkBaseTransformLearner(SkBaseTransform):
             del values["model"]
         elif not hasattr(self, "model") or self.model is None:
             raise KeyError(f"Missing key 'model' in [{', '.join(sorted(values))}]")
-        if "method" in values:
-            self._set_method(values["method"])
-            del values["method"]
-        for k in values:
-            if not k.startswith("model__"):
-                raise ValueError(f"Parameter '{k}' must start with 'model__'.")
+        method = values.pop("method", self.method)
         d = len("model__")
-        pars = {k[d:]: v for k, v in values.items()}
+        pars = {k[d:]: v for k, v in values.items() if k.startswith("model__")}
+        own = {k: v for k, v in values.items() if not k.startswith("model__")}
+        if own:
+            super().set_params(**own)
         self.model.set_params(**pars)
-        if "method" in values:
-            self.method = values["method"]
-            self._set_method(values["method"])
+        self._set_method(method)
+        self.method = method
+        return self
 
     #################
     # common methods
